@@ -673,3 +673,47 @@ Proof. intros E. unfold c_recv. now rewrite E. Qed.
 Lemma c_emit_buffers_until_connected c n tag ack m :
   cs_state (get_sock m (norm_api n)) <> CConn -> snd (c_emit c n tag ack m) = [].
 Proof. intros H. unfold c_emit. destruct (cs_state _); auto. contradiction. Qed.
+
+(** the CONNECT reply is written in the very step that writes the connection's table: whenever a
+    step hands a CONNECT packet of namespace n to an open connection c, c's table has n afterwards
+    (so the first packet a client sends on reading the reply is routed to its socket, not closed) *)
+Lemma connect_reply_implies_attached o s c p :
+  In (OSend c p) (snd (sstep o s)) -> p_type p = PConnect -> closed s c = false ->
+  tbl (fst (sstep o s)) c (p_nsp p) <> None.
+Proof.
+  intros Hin Ht Hcl.
+  destruct o; simpl in *.
+  - exfalso. unfold s_recv in Hin. destruct (alookup _ _) eqn:E; destruct (p_type p0) eqn:T; simpl in Hin;
+      try (unfold close_conn in Hin; simpl in Hin; destruct Hin as [Hin|Hin]; [discriminate|];
+           apply in_map_iff in Hin as [? [? _]]; discriminate).
+    + unfold sock_close in Hin; simpl in Hin. destruct Hin as [Hin|[]]; discriminate.
+    + unfold s_event in Hin. destruct (find_sock _ _); simpl in Hin; [|contradiction].
+      destruct Hin as [Hin|Hin]; [discriminate|]. destruct (p_id p0); simpl in Hin; [|contradiction].
+      destruct Hin as [Hin|[]]. inversion Hin; subst. discriminate.
+    + unfold s_ack in Hin. destruct (find_sock _ _); [|contradiction]. destruct (p_id p0); [|contradiction].
+      destruct (take_ack _ _) as [[? ?]|]; simpl in Hin; [|contradiction]. destruct Hin as [Hin|[]]; discriminate.
+    + unfold s_event in Hin. destruct (find_sock _ _); simpl in Hin; [|contradiction].
+      destruct Hin as [Hin|Hin]; [discriminate|]. destruct (p_id p0); simpl in Hin; [|contradiction].
+      destruct Hin as [Hin|[]]. inversion Hin; subst. discriminate.
+    + unfold s_ack in Hin. destruct (find_sock _ _); [|contradiction]. destruct (p_id p0); [|contradiction].
+      destruct (take_ack _ _) as [[? ?]|]; simpl in Hin; [|contradiction]. destruct Hin as [Hin|[]]; discriminate.
+    + unfold s_connect in Hin. destruct (ns_exists _); simpl in Hin; [contradiction|].
+      destruct Hin as [Hin|[]]. inversion Hin; subst. discriminate.
+  - unfold s_verdict in *. destruct (existsb _ _); [|contradiction]. destruct ok.
+    + destruct (sc_closed (sv_conn s c0)) eqn:Ec; simpl in Hin |- *.
+      * exfalso. destruct Hin as [Hin|[Hin|Hin]]; try discriminate.
+        -- inversion Hin; subst. unfold closed in Hcl. congruence.
+        -- unfold sock_close in Hin; simpl in Hin. destruct Hin as [Hin|[]]; discriminate.
+      * destruct Hin as [Hin|[Hin|[]]]; [|discriminate]. inversion Hin; subst. simpl.
+        rewrite tbl_set_table, N.eqb_refl, alookup_aset_same. discriminate.
+    + exfalso. simpl in Hin. destruct Hin as [Hin|[]]. inversion Hin; subst. discriminate.
+  - exfalso. unfold s_mwjoin in Hin. destruct (existsb _ _); contradiction.
+  - exfalso. unfold s_emit in Hin. destruct (sock_of _ _ _); [|contradiction].
+    destruct ack; simpl in Hin; destruct Hin as [Hin|[]]; inversion Hin; subst; discriminate.
+  - exfalso. apply in_map_iff in Hin as [k [E _]]. inversion E; subst. discriminate.
+  - exfalso. unfold s_join in Hin. destruct (sock_of _ _ _); contradiction.
+  - exfalso. unfold s_disc in Hin. destruct (sock_of _ _ _); [|contradiction]. simpl in Hin.
+    destruct Hin as [Hin|[Hin|[]]]; [inversion Hin; subst|]; discriminate.
+  - exfalso. unfold close_conn in Hin; simpl in Hin. destruct Hin as [Hin|Hin]; [discriminate|].
+    apply in_map_iff in Hin as [? [? _]]. discriminate.
+Qed.
